@@ -99,4 +99,548 @@ theorem getElem?_flatMap_replicate {β : Type} (f : Nat → β) (n m i : Nat) :
     · exact h0
   · rfl
 
+
+/-! ## numbers -/
+
+variable {K : Type} [Field K] [LinearOrder K] [IsStrictOrderedRing K]
+
+theorem sci_100 : (100.0 : K) = 100 := by norm_num
+theorem sci_12 : (12.0 : K) = 12 := by norm_num
+
+/-! ## `linspace` -/
+
+theorem linspace_const (a : K) (n : Nat) : linspace a a n = List.replicate n a := by
+  apply List.ext_getElem?
+  intro i
+  unfold linspace
+  rw [getElem?_map_range, List.getElem?_replicate]
+  split_ifs <;> simp
+
+theorem getElem?_linspace (a b : K) (n i : Nat) (hn : 2 ≤ n) :
+    (linspace a b n)[i]? = if i < n then some ((i : K) * ((b - a) / ((n - 1 : Nat) : K)) + a) else none := by
+  unfold linspace
+  rw [getElem?_map_range]
+  split_ifs with h1 h2 h3
+  · have hn1 : ((n - 1 : Nat) : K) ≠ 0 := by
+      have : 0 < n - 1 := by omega
+      exact_mod_cast this.ne'
+    have hi : (i : K) = ((n - 1 : Nat) : K) := by
+      have : i = n - 1 := by omega
+      rw [this]
+    rw [hi]; congr 1; field_simp; ring
+  · rfl
+  · omega
+  · rfl
+
+theorem getElem?_linspaceOpen (a b : K) (n i : Nat) :
+    (linspaceOpen a b n)[i]? = if i < n then some ((i : K) * ((b - a) / (n : K)) + a) else none := by
+  unfold linspaceOpen
+  rw [getElem?_map_range]
+
+/-! ## outdoor crops: reductions and calendar -/
+
+theorem allMonthsReductions_eq (y1 : K) (r : Nat → K) :
+    allMonthsReductions y1 r =
+      List.replicate 8 y1 ++ ((List.range 8).flatMap fun k => List.replicate 12 (r (k + 1)))
+        ++ List.replicate 16 (r 9) := by
+  unfold allMonthsReductions
+  simp only [linspace_const, List.dropLast_replicate]
+
+/-- model year of month `i` for the crops: 0 for May–December, then twelve months each, year 10 to the end -/
+theorem getElem?_allMonthsReductions (y1 : K) (r : Nat → K) (i : Nat) :
+    (allMonthsReductions y1 r)[i]? =
+      if i < 120 then some (if i < 8 then y1 else r (Nat.min 9 (1 + (i - 8) / 12))) else none := by
+  rw [allMonthsReductions_eq, List.getElem?_append, List.length_append, List.length_replicate,
+    length_flatMap_blocks _ 12 (fun k => by simp), List.getElem?_append, List.length_replicate,
+    List.getElem?_replicate, getElem?_flatMap_replicate, List.getElem?_replicate]
+  by_cases h8 : i < 8
+  · have : i < 8 + 8 * 12 := by omega
+    have h120 : i < 120 := by omega
+    simp [h8, this, h120]
+  · by_cases h104 : i < 8 + 8 * 12
+    · have h120 : i < 120 := by omega
+      have h96 : i - 8 < 8 * 12 := by omega
+      have hq : (i - 8) / 12 + 1 = Nat.min 9 (1 + (i - 8) / 12) := by
+        have : (i - 8) / 12 ≤ 7 := by omega
+        simp only [Nat.min_def]; split_ifs <;> omega
+      simp [h8, h104, h120, h96, hq]
+    · by_cases h120 : i < 120
+      · have h16 : i - (8 + 8 * 12) < 16 := by omega
+        have hq : Nat.min 9 (1 + (i - 8) / 12) = 9 := by
+          have : 8 ≤ (i - 8) / 12 := by omega
+          simp only [Nat.min_def]; split_ifs <;> omega
+        simp [h8, h104, h120, h16, hq]
+      · have h16 : ¬ i - (8 + 8 * 12) < 16 := by omega
+        simp [h104, h120, h16]
+
+theorem length_allMonthsReductions (y1 : K) (r : Nat → K) : (allMonthsReductions y1 r).length = 120 :=
+  length_of_getElem? _ 120 _ (getElem?_allMonthsReductions y1 r)
+
+/-- rotation of a twelve-month cycle: entry `j` of `l.drop m ++ l.take m` is entry `(m + j) % 12` of `l` -/
+theorem getD_rotate {β : Type} (l : List β) (d : β) (m j : Nat) (hl : l.length = 12) (hm : m ≤ 12) (hj : j < 12) :
+    (l.drop m ++ l.take m).getD j d = l.getD ((m + j) % 12) d := by
+  rw [List.getD_eq_getElem?_getD, List.getD_eq_getElem?_getD, List.getElem?_append, List.length_drop, hl]
+  by_cases h : j < 12 - m
+  · rw [if_pos h, List.getElem?_drop, Nat.mod_eq_of_lt (by omega)]
+  · rw [if_neg h, List.getElem?_take, if_pos (by omega)]
+    have : (m + j) % 12 = j - (12 - m) := by
+      have h1 : m + j = 12 + (j - (12 - m)) := by omega
+      rw [h1, Nat.add_mod_left, Nat.mod_eq_of_lt (by omega)]
+    rw [this]
+
+
+/-! ## lists given as `map f (range n)` -/
+
+theorem take_map_range {β : Type} (f : Nat → β) (n h : Nat) :
+    ((List.range n).map f).take h = (List.range (Nat.min h n)).map f := by
+  apply List.ext_getElem?; intro i
+  rw [List.getElem?_take, getElem?_map_range, getElem?_map_range]
+  simp only [Nat.min_def]
+  split_ifs <;> first | rfl | omega
+
+theorem drop_map_range {β : Type} (f : Nat → β) (n h : Nat) :
+    ((List.range n).map f).drop h = (List.range (n - h)).map fun i => f (h + i) := by
+  apply List.ext_getElem?; intro i
+  rw [List.getElem?_drop, getElem?_map_range, getElem?_map_range]
+  split_ifs <;> first | rfl | omega
+
+theorem zipWith_map_range {β γ δ : Type} (g : β → γ → δ) (a : Nat → β) (b : Nat → γ) (n : Nat) :
+    List.zipWith g ((List.range n).map a) ((List.range n).map b) = (List.range n).map fun i => g (a i) (b i) := by
+  apply List.ext_getElem?; intro i
+  rw [List.getElem?_zipWith, getElem?_map_range, getElem?_map_range, getElem?_map_range]
+  split_ifs <;> rfl
+
+theorem append_map_range {β : Type} (f : Nat → β) (a b : Nat) :
+    (List.range a).map f ++ (List.range b).map (fun i => f (a + i)) = (List.range (a + b)).map f := by
+  apply List.ext_getElem?; intro i
+  rw [List.getElem?_append, getElem?_map_range, getElem?_map_range, getElem?_map_range]
+  simp only [List.length_map, List.length_range]
+  split_ifs with h1 h2 h3 h4 <;> first | rfl | omega | (congr; omega)
+
+theorem replicate_eq_map_range {β : Type} (a : β) (n : Nat) :
+    List.replicate n a = (List.range n).map fun _ => a := by
+  apply List.ext_getElem?; intro i
+  rw [List.getElem?_replicate, getElem?_map_range]
+
+theorem getD_map_range {β : Type} (f : Nat → β) (n i : Nat) (d : β) (h : i < n) :
+    ((List.range n).map f).getD i d = f i := by
+  rw [List.getD_eq_getElem?_getD, getElem?_map_range, if_pos h]; rfl
+
+/-! ## sums written as left folds -/
+
+theorem foldl_add_nonneg (l : List K) (a : K) (ha : 0 ≤ a) (h : ∀ x ∈ l, 0 ≤ x) : 0 ≤ l.foldl (· + ·) a := by
+  induction l generalizing a with
+  | nil => simpa
+  | cons x t ih =>
+    simp only [List.foldl_cons]
+    exact ih _ (add_nonneg ha (h x (by simp))) (fun y hy => h y (by simp [hy]))
+
+theorem lsum_nonneg (l : List K) (h : ∀ x ∈ l, 0 ≤ x) : 0 ≤ lsum l := foldl_add_nonneg l 0 le_rfl h
+
+theorem foldl_add_map_mul (l : List K) (a k : K) :
+    (l.map (k * ·)).foldl (· + ·) (k * a) = k * l.foldl (· + ·) a := by
+  induction l generalizing a with
+  | nil => simp
+  | cons x t ih => simp only [List.map_cons, List.foldl_cons, ← mul_add, ih]
+
+theorem lsum_map_mul (l : List K) (k : K) : lsum (l.map (k * ·)) = k * lsum l := by
+  have := foldl_add_map_mul l 0 k
+  rw [mul_zero] at this
+  exact this
+
+/-! ## outdoor crops -/
+
+/-- the assumptions on the real-exponent power `x ** e` (DESIGN §3) -/
+structure PowOK (pow : K → K → K) : Prop where
+  ge : ∀ x e, 0 ≤ x → x ≤ 1 → 0 < e → e ≤ 1 → x ≤ pow x e
+  le_one : ∀ x e, 0 ≤ x → x ≤ 1 → 0 < e → e ≤ 1 → pow x e ≤ 1
+  one : ∀ x, pow x 1 = x
+
+/-- inputs of the crop series in the well-formed range; every clause is a guard of the code
+    (`assert`, index or division) or the sign of a physical quantity -/
+structure CropWF (c : CropIn K) : Prop where
+  start : 1 ≤ c.startMonth ∧ c.startMonth ≤ 12
+  season_len : c.season.length = 12
+  ratios_len : c.ratios.length = 10
+  season_nonneg : ∀ s ∈ c.season, 0 ≤ s
+  season_sum : (lsum (c.season.take 12) < 1.001 ∧ 0.999 < lsum (c.season.take 12)) ∨ lsum (c.season.take 12) = 0
+  hb_le : harvestBeforeMay c.country c.season ≤ 1
+  baseline : 0 ≤ c.baseline
+  ratios : ∀ k, -(5e-9) < ratioAt c.ratios k
+  r1 : ratioAt c.ratios 0 < 101
+  exponent : c.relocation = true → 0 < c.exponent ∧ c.exponent ≤ 1
+  horizon : c.nmonths ≤ 120
+  ramp : 1 < c.ratioArea → c.yearsToReach * 12 ≠ c.harvestDuration ∧
+    ¬ (c.harvestDuration < c.yearsToReach * 12 ∧ c.nmonths < c.yearsToReach * 12)
+
+theorem annualYield_nonneg (b : K) (hb : 0 ≤ b) : 0 ≤ annualYield b := by
+  unfold annualYield seedPercent
+  apply mul_nonneg hb
+  norm_num
+
+theorem harvestBeforeMay_nonneg (country : String) (season : List K) (h : ∀ s ∈ season, 0 ≤ s) :
+    0 ≤ harvestBeforeMay country season := by
+  unfold harvestBeforeMay
+  split_ifs <;> first | exact zero_le_one | exact le_rfl | skip
+  exact lsum_nonneg _ (fun x hx => h x (List.mem_of_mem_take hx))
+
+theorem year1Spec_nonneg (r1 : K) (season : List K) (country : String)
+    (hb1 : harvestBeforeMay country season ≤ 1) : 0 ≤ year1Spec r1 season country := by
+  unfold year1Spec
+  simp only
+  split_ifs with h1 h2 h3 h4 h5 <;> first | exact le_rfl | exact zero_le_one | skip
+  · exact absurd h2 (lt_irrefl _)
+  · have : 0 < 1 - harvestBeforeMay country season := by
+      have : (0.25 : K) = 1 / 4 := by norm_num
+      rw [this] at h5; linarith
+    exact div_nonneg (le_of_lt h4) this.le
+
+theorem year1Ratio_ok (r1 : K) (season : List K) (country : String) (hr : r1 < 101)
+    (hb0 : 0 ≤ harvestBeforeMay country season) (hb1 : harvestBeforeMay country season ≤ 1) :
+    year1Ratio r1 season country = .ok (year1Spec r1 season country) := by
+  unfold year1Ratio year1Spec
+  have h101 : (101.0 : K) = 101 := by norm_num
+  have hlt : (if r1 < 0 then (0 : K) else r1) < 101.0 := by
+    rw [h101]; split_ifs <;> linarith
+  have ha0 : (0 : K) ≤ 1 - harvestBeforeMay country season := by linarith
+  have ha1 : 1 - harvestBeforeMay country season ≤ (1 : K) := by linarith
+  simp only [hlt, not_true_eq_false, if_false, ha0, ha1]
+  split_ifs <;> rfl
+
+theorem clampTiny_ok (x : K) (h : -(5e-9) < x) : clampTiny x = .ok (if x ≤ 0 then 0 else x) := by
+  unfold clampTiny
+  by_cases hx : x ≤ 0
+  · simp [hx, h]
+  · have : 0 ≤ x := le_of_lt (not_le.mp hx)
+    simp [hx, this]
+
+theorem eps_pos : (0 : K) < 5e-9 := by norm_num
+
+theorem monthSpec_nonneg (c : CropIn K) (i : Nat) (hs : ∀ s ∈ c.season, 0 ≤ s) (hb : 0 ≤ c.baseline) :
+    0 ≤ monthSpec c i := by
+  unfold monthSpec
+  have h0 : 0 ≤ c.season.getD ((c.startMonth - 1 + i) % 12) 0 := by
+    rw [List.getD_eq_getElem?_getD]
+    cases hg : c.season[(c.startMonth - 1 + i) % 12]? with
+    | none => simp
+    | some v => simpa using hs v (List.mem_of_getElem? hg)
+  have h1 := annualYield_nonneg c.baseline hb
+  have h2 : (0 : K) ≤ 4e6 := by norm_num
+  have h3 : (0 : K) < 1e9 := by norm_num
+  exact div_nonneg (mul_nonneg (mul_nonneg h0 h1) h2) h3.le
+
+/-- the rotated cycle: entry `i mod 12` is the calendar month `(start − 1 + i) mod 12` -/
+theorem cycle_getD (c : CropIn K) (i : Nat) (hl : c.season.length = 12)
+    (hst : 1 ≤ c.startMonth ∧ c.startMonth ≤ 12) :
+    (monthsCycle c.startMonth c.baseline c.season).getD (i % 12) 0 = monthSpec c i := by
+  unfold monthsCycle monthSpec
+  have hjl : (monthsFromJanuary c.baseline c.season).length = 12 := by
+    unfold monthsFromJanuary; simp [hl]
+  simp only
+  rw [getD_rotate _ 0 (c.startMonth - 1) (i % 12) hjl (by omega) (Nat.mod_lt _ (by norm_num))]
+  have hm : (c.startMonth - 1 + i % 12) % 12 = (c.startMonth - 1 + i) % 12 := by omega
+  rw [hm]
+  unfold monthsFromJanuary
+  rw [List.getD_eq_getElem?_getD, List.getD_eq_getElem?_getD, List.getElem?_map, List.getElem?_take,
+    if_pos (Nat.mod_lt _ (by norm_num))]
+  cases c.season[(c.startMonth - 1 + i) % 12]? with
+  | none => simp
+  | some v => simp
+
+theorem reductions_getElem? (c : CropIn K) (i : Nat) (hi : i < 120) :
+    (allMonthsReductions (year1Spec (ratioAt c.ratios 0) c.season c.country) (ratioAt c.ratios))[i]?
+      = some (ratioYearRaw c i) := by
+  rw [getElem?_allMonthsReductions, if_pos hi]
+  rfl
+
+theorem ratioYearRaw_gt (c : CropIn K) (w : CropWF c) (i : Nat) : -(5e-9) < ratioYearRaw c i := by
+  unfold ratioYearRaw
+  split_ifs
+  · have := year1Spec_nonneg (ratioAt c.ratios 0) c.season c.country w.hb_le
+    have := eps_pos (K := K)
+    linarith
+  · exact w.ratios _
+
+theorem ratioYearSpec_nonneg (c : CropIn K) (i : Nat) : 0 ≤ ratioYearSpec c i := by
+  unfold ratioYearSpec
+  split_ifs with h
+  · exact le_rfl
+  · exact le_of_lt (not_le.mp h)
+
+theorem expSpec_range (c : CropIn K) (w : CropWF c) : 0 < expSpec c ∧ expSpec c ≤ 1 := by
+  unfold expSpec
+  split_ifs with h
+  · exact w.exponent h
+  · exact ⟨zero_lt_one, le_rfl⟩
+
+/-- relocation never lowers the response: `x ≤ relocGain x` for `0 ≤ x` -/
+theorem le_relocGain (pow : K → K → K) (hp : PowOK pow) (e x : K) (he : 0 < e ∧ e ≤ 1) (hx : 0 ≤ x) :
+    x ≤ relocGain pow e x := by
+  unfold relocGain
+  split_ifs with h
+  · exact le_rfl
+  · exact hp.ge x e hx (not_lt.mp h) he.1 he.2
+
+theorem relocGain_nonneg (pow : K → K → K) (hp : PowOK pow) (e x : K) (he : 0 < e ∧ e ≤ 1) (hx : 0 ≤ x) :
+    0 ≤ relocGain pow e x := le_trans hx (le_relocGain pow hp e x he hx)
+
+theorem monthGrown_ok (pow : K → K → K) (hp : PowOK pow) (c : CropIn K) (w : CropWF c) (i : Nat) (hi : i < 120) :
+    monthGrown pow (monthsCycle c.startMonth c.baseline c.season)
+        (allMonthsReductions (year1Spec (ratioAt c.ratios 0) c.season c.country) (ratioAt c.ratios))
+        (expSpec c) i
+      = .ok (monthSpec c i * relocGain pow (expSpec c) (ratioYearSpec c i), monthSpec c i * ratioYearSpec c i) := by
+  unfold monthGrown
+  rw [reductions_getElem? c i hi, cycle_getD c i w.season_len w.start]
+  have hc : clampTiny (ratioYearRaw c i) = .ok (ratioYearSpec c i) := clampTiny_ok _ (ratioYearRaw_gt c w i)
+  simp only
+  rw [hc]
+  have hm := monthSpec_nonneg c i w.season_nonneg w.baseline
+  have hr := ratioYearSpec_nonneg c i
+  have hg := le_relocGain pow hp (expSpec c) (ratioYearSpec c i) (expSpec_range c w) hr
+  have hle : monthSpec c i * ratioYearSpec c i ≤ monthSpec c i * relocGain pow (expSpec c) (ratioYearSpec c i) :=
+    mul_le_mul_of_nonneg_left hg hm
+  have heq : (if 1 < ratioYearSpec c i then monthSpec c i * ratioYearSpec c i
+      else monthSpec c i * pow (ratioYearSpec c i) (expSpec c))
+      = monthSpec c i * relocGain pow (expSpec c) (ratioYearSpec c i) := by
+    unfold relocGain; split_ifs <;> rfl
+  show (if monthSpec c i * ratioYearSpec c i ≤ (if 1 < ratioYearSpec c i then monthSpec c i * ratioYearSpec c i
+      else monthSpec c i * pow (ratioYearSpec c i) (expSpec c)) then _ else _) = _
+  rw [heq, if_pos hle]
+
+
+theorem assignReduction_ok (pow : K → K → K) (hp : PowOK pow) (c : CropIn K) (w : CropWF c) :
+    assignReduction pow c.nmonths (monthsCycle c.startMonth c.baseline c.season)
+        (allMonthsReductions (year1Spec (ratioAt c.ratios 0) c.season c.country) (ratioAt c.ratios)) (expSpec c)
+      = .ok ((List.range c.nmonths).map (fun i => monthSpec c i * relocGain pow (expSpec c) (ratioYearSpec c i)),
+             (List.range c.nmonths).map (noRelocSpec c)) := by
+  unfold assignReduction
+  rw [mapE_ok _ (fun i => (monthSpec c i * relocGain pow (expSpec c) (ratioYearSpec c i),
+      monthSpec c i * ratioYearSpec c i)) _
+    (fun i hi => monthGrown_ok pow hp c w i (by have := List.mem_range.mp hi; have := w.horizon; omega))]
+  simp only [List.map_map]
+  rfl
+
+/-! ### the cropland-expansion ramp (a loop writing into an array) -/
+
+theorem length_foldl_set {β : Type} (f : Nat → β) (l : List β) (is : List Nat) :
+    (is.foldl (fun l i => l.set i (f i)) l).length = l.length := by
+  induction is generalizing l with
+  | nil => rfl
+  | cons i t ih => simp only [List.foldl_cons, ih, List.length_set]
+
+theorem getElem?_foldl_set {β : Type} (f : Nat → β) (l : List β) (a k j : Nat) :
+    ((List.range' a k).foldl (fun l i => l.set i (f i)) l)[j]? =
+      if a ≤ j ∧ j < a + k ∧ j < l.length then some (f j) else l[j]? := by
+  induction k with
+  | zero =>
+    have : ¬ (a ≤ j ∧ j < a + 0 ∧ j < l.length) := by omega
+    rw [if_neg this]
+    rfl
+  | succ k ih =>
+    rw [List.range'_concat, List.foldl_append]
+    simp only [List.foldl_cons, List.foldl_nil, Nat.one_mul]
+    rw [List.getElem?_set, length_foldl_set]
+    by_cases hj : a + k = j
+    · subst hj
+      by_cases hl : a + k < l.length
+      · have : a ≤ a + k ∧ a + k < a + (k + 1) ∧ a + k < l.length := ⟨by omega, by omega, hl⟩
+        simp [hl, this]
+      · have h1 : ¬ (a ≤ a + k ∧ a + k < a + (k + 1) ∧ a + k < l.length) := by omega
+        have h2 : l[a + k]? = none := List.getElem?_eq_none (by omega)
+        simp [hl]
+    · rw [if_neg hj, ih]
+      by_cases h1 : a ≤ j ∧ j < a + k ∧ j < l.length
+      · have h2 : a ≤ j ∧ j < a + (k + 1) ∧ j < l.length := by omega
+        rw [if_pos h1, if_pos h2]
+      · have h2 : ¬ (a ≤ j ∧ j < a + (k + 1) ∧ j < l.length) := by omega
+        rw [if_neg h1, if_neg h2]
+
+/-- closed form of the ramp array -/
+def rampFn (N total : Nat) (maxv : K) (i : Nat) : K :=
+  if total ≤ i then maxv
+  else if N ≤ i then 1 + ((i - N : Nat) : K) * ((maxv - 1) / ((total : K) - (N : K))) else 1
+
+theorem areaRamp_ok (n N total : Nat) (maxv : K) (h1 : total ≠ N) (h2 : ¬ (N < total ∧ n < total)) :
+    areaRamp n N total maxv = .ok ((List.range n).map (rampFn N total maxv)) := by
+  unfold areaRamp
+  rw [if_neg h1, if_neg h2]
+  dsimp only
+  congr 1
+  apply eq_map_range
+  intro j
+  rw [List.getElem?_append, List.length_take, length_foldl_set, List.length_replicate, List.getElem?_take,
+    getElem?_foldl_set, List.length_replicate, List.getElem?_replicate, List.getElem?_replicate]
+  unfold rampFn
+  rcases Nat.lt_or_ge j n with hjn | hjn
+  · rcases Nat.lt_or_ge j total with hjt | hjt
+    · have hmin : j < min total n := lt_min hjt hjn
+      have hnt : ¬ total ≤ j := by omega
+      rw [if_pos hmin, if_pos hjt, if_pos hjn, if_pos hjn, if_neg hnt]
+      by_cases hN : N ≤ j
+      · have h3 : N ≤ j ∧ j < N + (total - N) ∧ j < n := by omega
+        rw [if_pos h3, if_pos hN]
+      · have h3 : ¬ (N ≤ j ∧ j < N + (total - N) ∧ j < n) := by omega
+        rw [if_neg h3, if_neg hN]
+    · have hm : min total n = total := min_eq_left (by omega)
+      have h3 : ¬ j < total := by omega
+      have h4 : j - total < n - total := by omega
+      rw [hm, if_neg h3, if_pos h4, if_pos hjn, if_pos hjt]
+  · have hmin : ¬ j < min total n := by
+      intro h; exact absurd (lt_of_lt_of_le h (min_le_right _ _)) (by omega)
+    have h4 : ¬ j - min total n < n - total := by
+      rcases le_total total n with h | h
+      · rw [min_eq_left h]; omega
+      · rw [min_eq_right h]; omega
+    have h5 : ¬ j < n := by omega
+    rw [if_neg hmin, if_neg h4, if_neg h5]
+
+theorem areaRampSpec_eq (c : CropIn K) (i : Nat) :
+    areaRampSpec c i = if 1 < c.ratioArea then rampFn c.harvestDuration (c.yearsToReach * 12) c.ratioArea i else 1 := by
+  unfold areaRampSpec rampFn
+  rfl
+
+/-- `calculate_monthly_production`: both series are the closed forms, month by month -/
+theorem monthlyProduction_ok (pow : K → K → K) (hp : PowOK pow) (c : CropIn K) (w : CropWF c) :
+    monthlyProduction pow c = .ok
+      ⟨monthsCycle c.startMonth c.baseline c.season,
+       allMonthsReductions (year1Spec (ratioAt c.ratios 0) c.season c.country) (ratioAt c.ratios),
+       expSpec c, (List.range c.nmonths).map (grownSpec pow c), (List.range c.nmonths).map (noRelocSpec c)⟩ := by
+  unfold monthlyProduction
+  have hsl : ¬ c.season.length < 12 := by rw [w.season_len]; omega
+  have hrl : ¬ c.ratios.length < 10 := by rw [w.ratios_len]; omega
+  have hsum : (lsum (c.season.take 12) < 1.001 ∧ 0.999 < lsum (c.season.take 12)) ∨
+      (lsum (c.season.take 12) ≤ 0 ∧ 0 ≤ lsum (c.season.take 12)) := by
+    rcases w.season_sum with h | h
+    · exact Or.inl h
+    · exact Or.inr ⟨h.le, h.ge⟩
+  rw [if_neg hsl, if_neg hrl]
+  simp only [hsum, not_true_eq_false, if_false]
+  rw [year1Ratio_ok _ _ _ w.r1 (harvestBeforeMay_nonneg _ _ w.season_nonneg) w.hb_le]
+  simp only
+  have he : (if c.relocation = true then c.exponent else 1) = expSpec c := rfl
+  rw [he, assignReduction_ok pow hp c w]
+  simp only
+  by_cases hr : 1 < c.ratioArea
+  · rw [if_pos hr, areaRamp_ok _ _ _ _ (w.ramp hr).1 (w.ramp hr).2]
+    simp only
+    rw [zipWith_map_range]
+    congr 2
+    apply List.map_congr_left
+    intro i _
+    unfold grownSpec
+    rw [areaRampSpec_eq, if_pos hr]
+  · rw [if_neg hr]
+    congr 2
+    apply List.map_congr_left
+    intro i _
+    unfold grownSpec
+    rw [areaRampSpec_eq, if_neg hr, mul_one]
+
+
+/-! ### production net of greenhouse land -/
+
+theorem cropProduction_ok (c : CropIn K) (G R F : Nat → K) :
+    cropProduction c ((List.range c.nmonths).map G) ((List.range c.nmonths).map R) ((List.range c.nmonths).map F)
+      = (List.range c.nmonths).map fun i =>
+          if c.addOutdoor then
+            (if c.relocation ∧ c.harvestDuration + c.rotationDelay ≤ i then G i else R i) * (1 - F i)
+              * (1 - c.waste / 100.0)
+          else 0 := by
+  unfold cropProduction
+  cases hA : c.addOutdoor
+  · simp only [Bool.false_eq_true, if_false, replicate_eq_map_range, List.map_map]
+    apply List.map_congr_left; intro i _; simp
+  · cases hR : c.relocation
+    · simp only [if_true, Bool.false_eq_true, if_false, false_and, List.map_map, zipWith_map_range]
+      rfl
+    · simp only [if_true, true_and]
+      generalize c.harvestDuration + c.rotationDelay = hd
+      generalize c.nmonths = n
+      rw [take_map_range, take_map_range, drop_map_range, drop_map_range, List.map_map, List.map_map,
+        zipWith_map_range, zipWith_map_range]
+      rcases Nat.le_total hd n with h | h
+      · have hmin : Nat.min hd n = hd := Nat.min_eq_left h
+        have hn : n = hd + (n - hd) := by omega
+        rw [hmin]
+        conv_rhs => rw [hn]
+        rw [← append_map_range, List.map_append]
+        congr 1
+        · rw [List.map_map]; apply List.map_congr_left; intro i hi
+          have : ¬ hd ≤ i := by have := List.mem_range.mp hi; omega
+          simp [this]
+        · apply List.map_congr_left; intro i hi
+          simp
+      · have hmin : Nat.min hd n = n := Nat.min_eq_right h
+        have h0 : n - hd = 0 := by omega
+        rw [hmin, h0]
+        simp only [List.range_zero, List.map_nil, List.append_nil, List.map_map]
+        apply List.map_congr_left; intro i hi
+        have : ¬ hd ≤ i := by have := List.mem_range.mp hi; omega
+        simp [this]
+
+/-! ## greenhouses -/
+
+theorem ghAreaList_ok (n delay : Nat) (limit : K) (hn : 42 ≤ n) :
+    ghAreaList n n delay limit = (List.range n).map (ghAreaSpec delay limit) := by
+  unfold ghAreaList
+  rw [linspace_const, linspace_const, linspace_const]
+  apply eq_map_range
+  intro j
+  rw [List.getElem?_take, List.getElem?_append, List.getElem?_append, List.getElem?_append]
+  simp only [List.length_append, List.length_replicate, List.getElem?_replicate]
+  have hl : (linspace 0 limit 37).length = 37 :=
+    length_of_getElem? _ 37 _ (fun i => getElem?_linspace 0 limit 37 i (by norm_num))
+  rw [hl, getElem?_linspace 0 limit 37 _ (by norm_num)]
+  unfold ghAreaSpec
+  trace_state
+  sorry
+
+/-- inputs of the greenhouse series in the well-formed range -/
+structure GhWF (n : Nat) (g : GhIn K) : Prop where
+  total_nonneg : 0 ≤ ghTotal g
+  /-- `assert len(outdoor_crops.KCALS_GROWN) >= 42` -/
+  horizon : g.addGreenhouses = true → ¬ noCropland g → 42 ≤ n
+  /-- a zero cropland comes from the country's share being zero (otherwise the code asserts) -/
+  frac : noCropland g → g.cropAreaFraction = 0
+
+theorem cycle_nonneg (c : CropIn K) (hs : ∀ s ∈ c.season, 0 ≤ s) (hb : 0 ≤ c.baseline) :
+    ∀ x ∈ monthsCycle c.startMonth c.baseline c.season, 0 ≤ x := by
+  intro x hx
+  unfold monthsCycle at hx
+  have hj : ∀ y ∈ monthsFromJanuary c.baseline c.season, 0 ≤ y := by
+    intro y hy
+    unfold monthsFromJanuary at hy
+    rcases List.mem_map.mp hy with ⟨s, hs1, rfl⟩
+    have h0 := hs s (List.mem_of_mem_take hs1)
+    have h1 := annualYield_nonneg c.baseline hb
+    have h2 : (0 : K) ≤ 4e6 := by norm_num
+    have h3 : (0 : K) < 1e9 := by norm_num
+    exact div_nonneg (mul_nonneg (mul_nonneg h0 h1) h2) h3.le
+  rcases List.mem_append.mp hx with h | h
+  · exact hj x (List.mem_of_mem_drop h)
+  · exact hj x (List.mem_of_mem_take h)
+
+theorem ghMonth_ok (pow : K → K → K) (hp : PowOK pow) (c : CropIn K) (w : CropWF c) (monthly : K)
+    (hm : 0 ≤ monthly) (i : Nat) (hi : i < 120) :
+    ghMonth pow monthly
+        (allMonthsReductions (year1Spec (ratioAt c.ratios 0) c.season c.country) (ratioAt c.ratios))
+        (expSpec c) i
+      = .ok (monthly * relocGain pow (expSpec c) (ratioYearSpec c i)) := by
+  unfold ghMonth
+  rw [reductions_getElem? c i hi]
+  have hc : clampTiny (ratioYearRaw c i) = .ok (ratioYearSpec c i) := clampTiny_ok _ (ratioYearRaw_gt c w i)
+  simp only
+  rw [hc]
+  have hr := ratioYearSpec_nonneg c i
+  have hg := le_relocGain pow hp (expSpec c) (ratioYearSpec c i) (expSpec_range c w) hr
+  have hle : monthly * ratioYearSpec c i ≤ monthly * relocGain pow (expSpec c) (ratioYearSpec c i) :=
+    mul_le_mul_of_nonneg_left hg hm
+  have heq : (if 1 < ratioYearSpec c i then monthly * ratioYearSpec c i
+      else monthly * pow (ratioYearSpec c i) (expSpec c))
+      = monthly * relocGain pow (expSpec c) (ratioYearSpec c i) := by
+    unfold relocGain; split_ifs <;> rfl
+  show (if monthly * ratioYearSpec c i ≤ (if 1 < ratioYearSpec c i then monthly * ratioYearSpec c i
+      else monthly * pow (ratioYearSpec c i) (expSpec c)) then _ else _) = _
+  rw [heq, if_pos hle]
+
 end Allfed.Proofs.Supply
